@@ -417,7 +417,7 @@ def reference(net):
     # ill-defined in floating point; such observations are not judged by clause 2
     R.ambig = {i for i, m in R.mis.items() if m[0] != tol and abs(m[0] / tol - 1.0) < 1e-6}
     R.exceed_doc = {i for i, m in R.mis.items() if m[0] > tol}
-    R.exceed_code = {i for i, m in R.mis.items() if m[1] > tol}
+    R.exceed_code = {i for i, m in R.mis.items() if m[0] > tol}   # since fix 5a15cfe the code follows the documented rule (longer arm)
     # model of the suspected defect D10: the removal loop sees the homogenised right-hand side of the
     # angular types (scaled by sigma-apr/stdev) once the raw test has raised the flag
     R.d10 = set()
@@ -425,7 +425,7 @@ def reference(net):
         for i, m in R.mis.items():
             s = R.S[i]
             f = sa / s.sigma if (s.tag in ANGULAR and s.sigma) else 1.0
-            if m[1] * f > tol: R.d10.add(i)
+            if m[0] * f > tol: R.d10.add(i)
     # observations that are structurally dead only because their point is removed LATER than the
     # listing is printed (null_space path) can still appear in the table: keep their misclosures
     R.mis_dead = {}
